@@ -5,6 +5,7 @@ import subprocess
 import tempfile
 import shutil
 import time as _time
+import vclock  # noqa: F401,E402  (clock trampolines go in before the library binds anything)
 import isotp
 from core import ms_to_ns, sec_to_ns, VERIF
 from vclock import VClock
